@@ -80,6 +80,19 @@ CLAIMS = {
               "per-file runs). Suggestions are not compared (the CLI's JSON does not print them)."),
         technique="Lean 4 proof (list lemmas over a parametric orchestrator model, decide over regenerated tables) + differential runs",
         ref="DESIGN.md §3 C10"),
+    "C06": dict(
+        text=("Kernel-checked theorems about the renderers and the exit status, for every list of violations: exit 0/1/2 iff "
+              "none / some / run-not-performed; the JSON document parses back to exactly the violations and total = their number; "
+              "the SARIF document has one run whose results are exactly the violations with 1-based columns, every result's "
+              "ruleId is declared, each rule once; the numbers printed after a path in text mode identify (line, column) exactly "
+              "when not (line = 0 and column != 0); hence the three renderings describe the same list up to _sanitize_string. "
+              "The model's documents are compared field by field with the real output of every command x format on awkward "
+              "paths/messages, and 14 usage-error classes are run as real processes. One genuine defect repaired (fix: cf227a6)."),
+        note=("json.dumps escaping, click option parsing and stream encoding are observed, not modelled; _sanitize_string is a "
+              "parameter (checked: identity on surrogate-free text, output valid UTF-8). Text mode with a newline in a file name is "
+              "not parseable and is skipped for the text comparison."),
+        technique="Lean 4 proof (round-trip and invariant lemmas over abstract JSON) + exhaustive command x format differential runs",
+        ref="DESIGN.md §3 C06"),
 }
 ALL = [f"C{n:02d}" for n in range(1, 21)]
 NOT_YET = "machinery for this property is not built yet in this revision of /verif (planned, see DESIGN.md §3); not claimed"
